@@ -95,18 +95,32 @@ func v11Exec(g *Group, o v11Op) (res string) {
 			res = "RPanic"
 		}
 	}()
-	ctx, cancel := context.WithTimeout(context.Background(), 2*time.Millisecond)
-	defer cancel()
+	// An operation that cannot get its permit is ended by a 2 ms deadline.  When the goroutine is held
+	// up (a loaded machine) the deadline can pass before the operation has looked at the permit, and a
+	// select with both cases ready picks one at random: a refusal is only taken at face value when
+	// the call was entered right after the deadline was set and returned right after it passed;
+	// otherwise it is repeated (a refused take leaves no trace in the limiters).
 	var err error
-	switch o.kind {
-	case 0:
-		err = g.TakeMsg(ctx, net.ParseIP(o.ip), o.a)
-	case 1:
-		g.ReleaseMsg(net.ParseIP(o.ip), o.a)
-	case 2:
-		err = g.TakeDest(ctx, o.a)
-	case 3:
-		g.ReleaseDest(o.a)
+	for attempt := 0; attempt < 5; attempt++ {
+		created := time.Now()
+		ctx, cancel := context.WithTimeout(context.Background(), 2*time.Millisecond)
+		entered := time.Now()
+		err = nil
+		switch o.kind {
+		case 0:
+			err = g.TakeMsg(ctx, net.ParseIP(o.ip), o.a)
+		case 1:
+			g.ReleaseMsg(net.ParseIP(o.ip), o.a)
+		case 2:
+			err = g.TakeDest(ctx, o.a)
+		case 3:
+			g.ReleaseDest(o.a)
+		}
+		returned := time.Now()
+		cancel()
+		if err == nil || (entered.Sub(created) < 500*time.Microsecond && returned.Sub(entered) < 3500*time.Microsecond) {
+			break
+		}
 	}
 	if err != nil {
 		return "RErr"
@@ -278,6 +292,7 @@ func TestVerif_C11(t *testing.T) {
 	// rate limit behind a concurrency limit in one scope, across a refill: a take that gets the concurrency
 	// permit and then times out on the empty rate bucket must give the permit back.  The rate period is
 	// 300 ms; phase 1 runs right after construction, phase 2 after the first refill.
+	refillRetries := 0
 	for k := 0; k < 4; k++ {
 		sc := scopes[k%4]
 		capA := 1 + k%2
@@ -299,6 +314,12 @@ func TestVerif_C11(t *testing.T) {
 		do(v11Op{kind: relK, ip: ip, a: dom})
 		for j := 0; j < capA+1; j++ {
 			do(v11Op{kind: takeK, ip: ip, a: dom}) // concurrency permit acquired, rate bucket empty: time-out
+		}
+		if time.Since(t0) > 200*time.Millisecond && refillRetries < 8 {
+			// phase 1 must be over well before the first refill (300 ms); the machine was too slow: again
+			refillRetries++
+			k--
+			continue
 		}
 		time.Sleep(time.Until(t0.Add(335 * time.Millisecond)))
 		exec = append(exec, v11Op{kind: 4})
